@@ -172,7 +172,7 @@ def nested (f : α → α → α) (a b : α) (innerAB : α → α × α) (tol : 
     (o.res, ⟨node, x, ab.1, ab.2, o.panels⟩)
   let rec go (rest : List (α × α)) (s accu : α) (calls : List (InnerCall α)) : OutN α :=
     match rest with
-    | [] => ⟨.ok ((b - a) / two * s, (b - a) / two * accu), calls.reverse⟩
+    | [] => ⟨.ok ((b - a) / two * s, Num.abs ((b - a) / two) * accu), calls.reverse⟩
     | (n, w) :: rest =>
       let (rn, cn) := inner (-n)
       match rn with
